@@ -250,7 +250,7 @@ def unit_enum_invariant(ctx, prog, rep):
             if c.get('f', '').replace(' ', '').endswith('RustEnum::Unit'):
                 found = True
                 forms = []
-                for fr in c['guard']:
+                for fr in guards.normalize_frames(c['guard']):
                     if fr.get('k') != 'if':
                         continue
                     cond, neg = fr['c'], bool(fr.get('neg'))
